@@ -1,6 +1,8 @@
 module verif
 
-go 1.22
+go 1.22.0
+
+toolchain go1.23.5
 
 require (
 	github.com/google/uuid v1.3.0
@@ -12,17 +14,24 @@ require (
 )
 
 require (
+	golang.org/x/mod v0.22.0 // indirect
+	golang.org/x/sync v0.10.0 // indirect
+)
+
+require (
 	github.com/FactomProject/basen v0.0.0-20150613233007-fe3947df716e // indirect
 	github.com/FactomProject/btcutilecc v0.0.0-20130527213604-d3a63a5752ec // indirect
+	github.com/anishathalye/porcupine v1.3.0
 	github.com/aws/aws-sdk-go v1.35.3 // indirect
 	github.com/btcsuite/btcd v0.20.1-beta // indirect
 	github.com/btcsuite/btcutil v1.0.2 // indirect
 	github.com/gomodule/redigo v1.8.2 // indirect
 	github.com/jmespath/go-jmespath v0.4.0 // indirect
 	github.com/kelseyhightower/envconfig v1.4.0 // indirect
-	github.com/tokenized/threads v0.1.2 // indirect
+	github.com/tokenized/threads v0.1.2
 	github.com/tyler-smith/go-bip32 v0.0.0-20170922074101-2c9cfd177564 // indirect
 	golang.org/x/crypto v0.8.0 // indirect
+	golang.org/x/tools v0.29.0
 )
 
 replace github.com/tokenized/bitcoin_reader => /repo
